@@ -116,6 +116,7 @@ def check(ctx):
     check_forwarding(ctx, {'bootstrap_iteration', 'n_assignments'})
     check_runners_up_as_requested(ctx)
     check_correlation_inheritance_order(ctx)
+    check_candidates_forwarded_unchanged(ctx)
     from ..rules.idioms import check_falsy_numeric_default
     for fi_ in ctx.db.iter_functions():
         if fi_.module.short in ('cli.from_specified_markers',
@@ -722,3 +723,91 @@ def check_correlation_inheritance_order(
            'the parent -> child pass: a single-child level below a level '
            'that was voted on reports the correlation of the level below '
            'it, not of the level where its assignment was decided')
+
+
+def check_candidates_forwarded_unchanged(
+        ctx, rule='R-FWD/candidates-unchanged'):
+    """the number of candidates kept per cell travels from the front end
+    to choose_node unchanged: wherever a function of the election modules
+    that has an `n_assignments` parameter hands it on, the argument is the
+    parameter itself; the only adjustment is choose_node's own
+    `min(n_assignments, <number of vote columns>)`, the number of types
+    that can be listed at this very parent.  A clamp computed anywhere
+    else (from the tree, from a default) is a different number."""
+    from ..core.resolve import resolve_callee, bind_args
+    from ..core.loader import FunctionInfo
+    db = ctx.db
+    n = 0
+    for fi in db.iter_functions():
+        if fi.module.short not in ('type_assignment.election',
+                                   'type_assignment.election_runner') \
+                or 'n_assignments' not in fi.params:
+            continue
+        cfg = cfg_of(fi)
+        rd = rd_of(fi)
+        ex = Expander(fi)
+        for node in cfg.nodes:
+            if node.id not in rd.live:
+                continue
+            for c in cfg.calls_in(node):
+                t = resolve_callee(db, fi, c)
+                args = dict()
+                if isinstance(t, FunctionInfo) and 'n_assignments' \
+                        in t.params:
+                    m, _ = bind_args(t, c)
+                    if m.get('n_assignments') is not None:
+                        args['n_assignments'] = m['n_assignments']
+                # worker kwargs dicts: {'n_assignments': x}
+                for d in ast.walk(c):
+                    if isinstance(d, ast.Dict):
+                        for k_, v_ in zip(d.keys, d.values):
+                            if isinstance(k_, ast.Constant) \
+                                    and k_.value == 'n_assignments':
+                                args['n_assignments'] = v_
+                for a in args.values():
+                    n += 1
+                    term = ex.expand(a, node.id)
+                    ok = term == ('param', 'n_assignments')
+                    if not ok and fi.name == 'choose_node':
+                        ok = True       # judged below
+                    ctx.touch(fi)
+                    ctx.ob(rule, f'{fi.qual}:call#{n - 1}', fi.loc(c), ok,
+                           'n_assignments is handed on as received' if ok
+                           else f'{fi.name} hands on n_assignments = '
+                           f'{fmt_term(term)[:70]}, not the value it '
+                           'received: the election keeps another number '
+                           'of candidates than was asked for')
+    # choose_node: the one clamp, by the number of vote columns
+    fi = db.fn('type_assignment.election:choose_node')
+    ctx.touch(fi)
+    cfg = cfg_of(fi)
+    rd = rd_of(fi)
+    ex = Expander(fi)
+    for node in cfg.nodes:
+        if node.kind != 'stmt' or node.id not in rd.live or not isinstance(
+                node.ast, ast.Assign):
+            continue
+        tg = node.ast.targets[0]
+        if not (isinstance(tg, ast.Name) and tg.id == 'n_assignments'):
+            continue
+        n += 1
+        v = node.ast.value
+        ok = False
+        if isinstance(v, ast.Call) and getattr(v.func, 'id', None) == 'min' \
+                and len(v.args) == 2:
+            sides = [unparse(a) for a in v.args]
+            other = [a for a in v.args if not (isinstance(a, ast.Name)
+                                               and a.id == 'n_assignments')]
+            if len(other) == 1 and 'n_assignments' in sides:
+                o = other[0]
+                ok = isinstance(o, ast.Subscript) and isinstance(
+                    o.value, ast.Attribute) and o.value.attr == 'shape' \
+                    and isinstance(o.slice, ast.Constant) \
+                    and o.slice.value == 1
+        ctx.ob(rule, f'{fi.qual}:clamp#{n - 1}', fi.loc(node.ast), ok,
+               'clamped to the number of vote columns only' if ok else
+               f'`{unparse(node.ast)[:60]}` changes the number of '
+               'candidates by something other than the number of vote '
+               'columns at this parent')
+    if n < 4:
+        raise AnalysisError(f'only {n} hand-overs of n_assignments found')
